@@ -332,6 +332,7 @@ def c13(run):
     traces_check(run, b, "c13r", "TraceWsReader")
     vlib.tlc_model(run, "WsWriterImpl", workers=12, xmx="12g")
     traces_check(run, b, "c13w", "TraceWsWriter")
+    records_check(run, b, "c13b", "C13Records")
     return run.finish("model_checking")
 
 
